@@ -19,6 +19,14 @@ func (te *tableEngine) tableGameOpen() error {
 		return nil
 	}
 
+	// a hand that has been opened and is not settled yet blocks a second open, even
+	// before its first state has been delivered
+	if te.table.State.Status == TableStateStatus_TableGameOpened ||
+		te.table.State.Status == TableStateStatus_TableGamePlaying ||
+		te.table.State.Status == TableStateStatus_TableGameSettled {
+		return nil
+	}
+
 	// a closed or released table does not open another hand
 	if te.table.State.Status == TableStateStatus_TableClosed || te.isReleased {
 		return nil
